@@ -224,8 +224,37 @@ def rate_rule(ctx):
         rep.ok("C25.R7", C, "sign ratio of Omega2 : Omega1 not syntactically determinate (no verdict)", verdict="unknown", trivial=True)
 
 
+def history_only(ctx, rule="C25.R9"):
+    """'the reported angle equals the initial angle plus the accumulated rotation' for ANY history sampled finely enough - whatever time stamps
+    the samples carry.  Integrators evaluate at non-monotone times (rejected steps, stage values, post-processing from t0), so a tracking
+    state that looks at `t` (reset when time runs backwards, ...) discards whole turns on such queries."""
+    rep = ctx.rep
+    cls = ctx.repo.get(REV, "Revolute")
+    fn = next((f for f in cls.body if isinstance(f, ast.FunctionDef) and f.name == "l"), None)
+    C = f"{REV}:Revolute.l"
+    if fn is None:
+        raise AnalysisError("Revolute.l vanished")
+    tname = fn.args.args[1].arg if len(fn.args.args) > 1 else "t"
+    resets = [w for w in ast.walk(fn) if isinstance(w, ast.Call) and norm_src(w.func) in ("self.reset", "self.assembler_callback")]
+    tstores = [w for w in ast.walk(fn) if isinstance(w, ast.Assign) and any(isinstance(t_, ast.Attribute) and dotted(t_.value) == "self" for t_ in w.targets)
+               and any(isinstance(x, ast.Name) and x.id == tname for x in ast.walk(w.value))]
+    tcomp = [w for w in ast.walk(fn) if isinstance(w, ast.Compare) and any(isinstance(x, ast.Name) and x.id == tname for x in ast.walk(w))]
+    if resets:
+        rep.bad(rule, C, resets[0], f"the query calls `{norm_src(resets[0])}`: the accumulated whole turns are discarded by a QUERY (under whatever condition), so the reported angle is re-wrapped "
+                "into one turn for the rest of the history", f"{REV}:{resets[0].lineno}")
+    else:
+        rep.ok(rule, C, "the query never re-initialises the tracking state")
+    if tstores or tcomp:
+        w = (tstores or tcomp)[0]
+        rep.bad(rule, C, w, f"`{norm_src(w)[:60]}`: the tracking state depends on the time stamp `{tname}` of the queries, not only on the configurations queried", f"{REV}:{w.lineno}")
+    else:
+        rep.ok(rule, C, f"no tracking state is derived from or compared with the time stamp `{tname}`")
+
+
 def run(ctx):
     rep = ctx.rep
+    rep.rule("C25.R9", "the tracked angle is a function of the rotation HISTORY only: the query l() neither resets the tracking state itself nor stores / compares the time stamp of the previous query", 2)
+    history_only(ctx)
     rep.rule("C25.R1", "writers of the tracking state", 4)
     rep.rule("C25.R2", "reset restores the initial tracking state, which is 'relative rotation zero' (no turn, quadrant 1) independent of angle0", 4)
     rep.rule("C25.R3", "guarded, idempotent turn counting in l()", 3)
@@ -524,4 +553,9 @@ MUTANTS += [
 NEUTRAL += [
     dict(id="c25-n-r2", canary=True, what="assembler_callback delegates the initialisation of the tracker to reset()", file=REV,
          old="    def assembler_callback(self):\n        self.n_full_rotations = 0\n        self.previous_quadrant = 1\n", new="    def assembler_callback(self):\n        self.reset()\n"),
+]
+
+MUTANTS += [
+    dict(id="c25-r9-seed", canary=True, what="[seeded by sub-agent] Revolute.l resets the tracked angle automatically when a query carries an earlier time stamp than the previous one", file=REV,
+         old="    def l(self, t, q):\n", new="    def l(self, t, q):\n        if t < getattr(self, \"previous_t\", -np.inf):\n            self.reset()\n        self.previous_t = t\n", expect="C25.R9"),
 ]
